@@ -167,8 +167,12 @@ DeliveredMonotone == [][\A s \in Signals : delivered'[s] >= delivered[s]]_vars
 OnlyAckDelivers == [][delivered' # delivered => act'.name = "Ack"]_vars
 
 \* edge dump used by the conformance replay
-St == [cum |-> cum, seen |-> seen, cur |-> cur, pend |-> pend, rep |-> rep,
-       phase |-> phase, res |-> res, delivered |-> delivered]
+\* (map keys are given separately so that the initial state reads the same under both conventions)
+HasKey(x) == ZeroReports = "keys" /\ x >= 0
+St == [cum |-> cum, seen |-> seen,
+       cur |-> [s \in Signals |-> V(cur[s])], curKeySet |-> {s \in Signals : HasKey(cur[s])},
+       pend |-> [s \in Signals |-> V(pend[s])], pendKeySet |-> {s \in Signals : HasKey(pend[s])},
+       rep |-> rep, phase |-> phase, res |-> res, delivered |-> delivered]
 Dump == PrintT(ToJson([fs |-> St, fa |-> act.name, act |-> act', ts |-> St', fabs |-> Abs, tabs |-> Abs']))
 View == <<cum, seen, cur, pend, rep, phase, res, delivered>>
 =============================================================================
